@@ -159,12 +159,15 @@ def leaf_spec(name, avail, x):
   return jets.Jet(F(x), D(x), D2(x))
 
 
-def tree_eval_real(tree, leaves):
+def tree_eval_real(tree, leaves, nodes=None):
   import atsim.potentials as ap
   if isinstance(tree, str):
     return leaves[tree]
   op, a, b = tree
-  return getattr(ap, op)(tree_eval_real(a, leaves), tree_eval_real(b, leaves))
+  obj = getattr(ap, op)(tree_eval_real(a, leaves, nodes), tree_eval_real(b, leaves, nodes))
+  if nodes is not None:
+    nodes.append((tree, obj))
+  return obj
 
 
 def tree_offers(tree, avail):
@@ -205,9 +208,11 @@ def tree_str(tree):
   return tree if isinstance(tree, str) else "%s(%s,%s)" % (tree[0], tree_str(tree[1]), tree_str(tree[2]))
 
 
-def comb_case(tree, avail):
-  """avail: {leaf: (deriv offered, deriv2 offered)}"""
-  res = new_result("comb %s avail=%s" % (tree_str(tree), "".join("%s%d%d" % (k, a[0], a[1]) for k, a in sorted(avail.items()))))
+def comb_case(tree, avail, operands=False):
+  """avail: {leaf: (deriv offered, deriv2 offered)}.  operands=True: instead of the combination itself, every inner
+  combination is checked after the outer one was built (operands are unaffected by having been combined)."""
+  res = new_result("comb %s avail=%s%s" % (tree_str(tree), "".join("%s%d%d" % (k, a[0], a[1]) for k, a in sorted(avail.items())),
+                                         " (operands after combination)" if operands else ""))
   shims.install(extra_globals={"atsim.potentials": {"math": mathshim}})
   depth1 = not any(isinstance(t, tuple) for t in tree[1:])
 
@@ -216,8 +221,17 @@ def comb_case(tree, avail):
     leaves = {k: uf(k, deriv=a[0], deriv2=a[1]) for k, a in avail.items()}
     if any(tree_has_pow_base(tree, k) for k in leaves):
       pass
-    pot = tree_eval_real(tree, leaves)
+    nodes = []
+    pot = tree_eval_real(tree, leaves, nodes)
     hd, hd2 = hasattr(pot, "deriv"), hasattr(pot, "deriv2")
+    if operands:
+      inner = []
+      for (t, obj) in nodes[:-1]:
+        d1 = not any(isinstance(x, tuple) for x in t[1:])
+        sp = tree_spec(t, avail, r) if d1 else nested_spec(t, avail, r)
+        ihd = hasattr(obj, "deriv")
+        inner.append((tree_str(t), [term(obj(r)), term(obj.deriv(r)) if ihd else None, None], [term(sp.v), term(sp.d1), term(sp.d2)]))
+      return None, None, (hd, hd2), inner
     got = [term(pot(r)), term(pot.deriv(r)) if hd else None, term(pot.deriv2(r)) if hd2 else None]
     if depth1:
       spec = tree_spec(tree, avail, r)
@@ -225,12 +239,21 @@ def comb_case(tree, avail):
       # nested: inner combinations are themselves callables offering (or not) derivatives;
       # specification: outer rule applied to what each child offers, else central difference of the child
       spec = nested_spec(tree, avail, r)
-    return got, [term(spec.v), term(spec.d1), term(spec.d2)], (hd, hd2)
+    inner = []
+    return got, [term(spec.v), term(spec.d1), term(spec.d2)], (hd, hd2), inner
 
   def build(path, wrong=False):
     if path.exc is not None:
       raise Structural("exception", "%s: %s" % (type(path.exc).__name__, path.exc))
-    got, want, (hd, hd2) = path.value
+    got, want, (hd, hd2), inner = path.value
+    if operands:
+      vcs = []
+      for (nm, g, wnt) in inner:
+        for i, what in enumerate(("value", "deriv", "deriv2")):
+          if g[i] is not None:
+            wv = wnt[i] + 1 if (wrong and i == 0) else wnt[i]
+            vcs.append(VC("operand %s after combination: %s" % (nm, what), eq_formula(g[i], wv), info=dict(key="comb-operand-changed-%s" % what)))
+      return vcs
     exp_hd, exp_hd2 = tree_offers(tree, avail)
     if (hd, hd2) != (exp_hd, exp_hd2):
       raise Structural("offered", "%s offers deriv=%s deriv2=%s, expected %s %s" % (tree_str(tree), hd, hd2, exp_hd, exp_hd2))
@@ -241,6 +264,10 @@ def comb_case(tree, avail):
       vcs.append(VC("deriv", eq_formula(got[1], want[1]), info=dict(key="comb-deriv-%s" % tree[0])))
     if hd2:
       vcs.append(VC("deriv2", eq_formula(got[2], want[2]), info=dict(key="comb-deriv2-%s" % tree[0])))
+    for (nm, g, wnt) in inner:
+      for i, what in enumerate(("value", "deriv", "deriv2")):
+        if g[i] is not None:
+          vcs.append(VC("operand %s after combination: %s" % (nm, what), eq_formula(g[i], wnt[i]), info=dict(key="comb-operand-changed-%s" % what)))
     return vcs
 
   def replay(v, w, path, structural):
@@ -301,9 +328,19 @@ def replay_comb(tree, avail, w):
       l.deriv2 = lambda x: -0.5 * B * B * math.sin(B * x)
     return l
   leaves = {k: mk(i, avail[k]) for i, k in enumerate(sorted(avail))}
-  pot = tree_eval_real(tree, leaves)
+  nodes = []
+  pot = tree_eval_real(tree, leaves, nodes)
   bad = []
   h = 1e-3
+  # every inner combination still is its own function after having been used as an operand
+  for (t, obj) in nodes[:-1]:
+    fresh = tree_eval_real(t, leaves)
+    if abs(obj(r) - fresh(r)) > 1e-12 * max(1.0, abs(fresh(r))):
+      bad.append("%s evaluates to %r after being used as an operand of %s, a freshly built one to %r" % (tree_str(t), obj(r), tree_str(tree), fresh(r)))
+    if hasattr(obj, "deriv"):
+      dn = (-obj(r + 2 * h) + 8 * obj(r + h) - 8 * obj(r - h) + obj(r - 2 * h)) / (12 * h)
+      if abs(obj.deriv(r) - dn) > 1e-4 * max(1.0, abs(dn)):
+        bad.append("%s.deriv(%r)=%r but the slope of its value is %r (after being used as an operand)" % (tree_str(t), r, obj.deriv(r), dn))
   e = pot
   d_num = (-e(r + 2 * h) + 8 * e(r + h) - 8 * e(r - h) + e(r - 2 * h)) / (12 * h)
   d2_num = (-e(r + 2 * h) + 16 * e(r + h) - 30 * e(r) + 16 * e(r - h) - e(r - 2 * h)) / (12 * h * h)
@@ -623,6 +660,8 @@ def cases(tier, seed=0):
   for i, t in enumerate(trees2):
     av = {k: full for k in tree_leaves(t)}
     cs.append(Case("comb2 %s" % tree_str(t), comb_case, tree=t, avail=av))
+    if "pow" not in tree_str(t) or tier == "thorough":
+      cs.append(Case("comb2 %s operands" % tree_str(t), comb_case, tree=t, avail=av, operands=True))
     if i % 4 == 0:
       av2 = dict(av)
       first = tree_leaves(t)[0]
